@@ -36,7 +36,7 @@ const (
 func (k c08Kind) coq() string { return [...]string{"KDoc", "KPrinc", "KUnused"}[k] }
 
 type c08Op struct {
-	Typ  string  `json:"op"` // A arrive single, R arrive range, H housekeep, X abandon
+	Typ  string  `json:"op"` // A arrive single, R arrive range, H housekeep, X abandon, O open channel cache S (lazily)
 	Kind c08Kind `json:"kind,omitempty"`
 	S    uint64  `json:"s,omitempty"`
 	Hi   uint64  `json:"hi,omitempty"`
@@ -54,6 +54,39 @@ func (o c08Op) coq() string {
 	}
 	return "Abandon"
 }
+
+// xcoq: the operation as an [xop] of ChanLayer.v
+func (o c08Op) xcoq() string {
+	if o.Typ == "O" {
+		return fmt.Sprintf("XOpen %d", o.S)
+	}
+	return "XBuf (" + o.coq() + ")"
+}
+
+// channels of a document, by sequence number (chf_bits of C08_Corr.v): bit 0 -> channel 1, bit 1 -> channel 2
+func c08ChanIDs(s uint64) []uint64 {
+	var r []uint64
+	if s&1 != 0 {
+		r = append(r, 1)
+	}
+	if s&2 != 0 {
+		r = append(r, 2)
+	}
+	return r
+}
+func c08ChanName(id uint64) string {
+	if id == 0 {
+		return channels.UserStarChannel
+	}
+	return fmt.Sprintf("c08ch%d", id)
+}
+func c08ChanMap(s uint64) channels.ChannelMap {
+	m := channels.ChannelMap{}
+	for _, id := range c08ChanIDs(s) {
+		m[c08ChanName(id)] = nil
+	}
+	return m
+}
 func (o c08Op) String() string {
 	a := ""
 	if o.Aged {
@@ -64,6 +97,8 @@ func (o c08Op) String() string {
 		return fmt.Sprintf("%s%d%s", [...]string{"d", "p", "u"}[o.Kind], o.S, a)
 	case "R":
 		return fmt.Sprintf("u%d-%d%s", o.S, o.Hi, a)
+	case "O":
+		return fmt.Sprintf("open%d", o.S)
 	}
 	return o.Typ
 }
@@ -114,6 +149,13 @@ func (r *c08RecCache) AddUnusedSequence(change *LogEntry) {
 	r.ChannelCache.AddUnusedSequence(change)
 }
 
+// a real single-channel cache with a late-sequence client registered at creation, as an open continuous feed has
+type c08Chan struct {
+	id  uint64
+	sc  *singleChannelCacheImpl
+	reg uint64 // what RegisterLateSequenceClient returned
+}
+
 type c08Env struct {
 	t      *testing.T
 	ctx    context.Context
@@ -130,6 +172,7 @@ type c08Inst struct {
 	rec     *c08RecCache
 	chc     *channelCacheImpl
 	star    *singleChannelCacheImpl
+	chans   []*c08Chan // active single-channel caches in creation order, "*" first
 	initial uint64
 	maxp    int
 	seen    int  // deliveries already reported
@@ -157,9 +200,10 @@ func (e *c08Env) newInst(maxp int, initial uint64) *c08Inst {
 	if !ok {
 		e.t.Fatalf("cannot create the star channel cache")
 	}
-	// a listener parked on the sentinel entry keeps every late arrival in the star channel's late log
-	star.lateLogs[0].addListener()
-	return &c08Inst{env: e, cc: cc, rec: rec, chc: chc, star: star, initial: initial, maxp: maxp}
+	in := &c08Inst{env: e, cc: cc, rec: rec, chc: chc, star: star, initial: initial, maxp: maxp}
+	// a feed registered on the late-sequence log keeps every late arrival in it (entries nobody listens to are pruned)
+	in.chans = []*c08Chan{{id: 0, sc: star, reg: star.RegisterLateSequenceClient()}}
+	return in
 }
 
 func (in *c08Inst) close() {
@@ -195,7 +239,7 @@ func (in *c08Inst) apply(op c08Op) {
 			in.cc.processEntry(ctx, &LogEntry{Sequence: op.S, DocID: fmt.Sprintf("_user/u%d", op.S), IsPrincipal: true, TimeReceived: ts})
 		default:
 			in.cc.processEntry(ctx, &LogEntry{Sequence: op.S, DocID: fmt.Sprintf("doc%d", op.S), RevID: "1-abc", TimeReceived: ts,
-				CollectionID: base.DefaultCollectionID})
+				CollectionID: base.DefaultCollectionID, Channels: c08ChanMap(op.S)})
 		}
 	case "R":
 		if in.viaFeed && !op.Aged { // processUnusedSequenceRange stamps the entry with the current time
@@ -203,6 +247,20 @@ func (in *c08Inst) apply(op c08Op) {
 		} else {
 			in.cc.releaseUnusedSequenceRange(ctx, op.S, op.Hi, ts)
 		}
+	case "O":
+		// first request for the channel: the real channelCacheImpl creates the cache lazily (validFrom =
+		// highCacheSequence+1) and the feed registers on its late-sequence log
+		for _, c := range in.chans {
+			if c.id == op.S {
+				return
+			}
+		}
+		v, err := in.chc.getSingleChannelCache(ctx, channels.NewID(c08ChanName(op.S), base.DefaultCollectionID))
+		sc, ok := v.(*singleChannelCacheImpl)
+		if err != nil || !ok {
+			in.env.t.Fatalf("cannot open channel cache %d: %v", op.S, err)
+		}
+		in.chans = append(in.chans, &c08Chan{id: op.S, sc: sc, reg: sc.RegisterLateSequenceClient()})
 	case "H":
 		atomic.StoreInt64(&in.cc.lastAddPendingTime, 0) // "CachePendingSeqMaxWait has passed since the last run"
 		_ = in.cc.InsertPendingEntries(ctx)
@@ -278,23 +336,37 @@ func (o c08Obs) coq() string {
 	return fmt.Sprintf("O %d %s %s %s %d %s", o.Next, c08Pairs(o.Pend), cqNList(o.Recv), c08Pairs(o.Skip), o.Stable, cqList(dl))
 }
 
-// what the "*" channel cache holds at the end: cached sequences (sorted) and the late-sequence log in arrival order
-func (in *c08Inst) starContents() (cached []uint64, late []uint64) {
-	in.star.lock.RLock()
-	for _, l := range in.star.logs {
-		cached = append(cached, l.Sequence)
+// what a channel cache holds at the end: validFrom, cached sequences (sorted), and what the feed registered at its
+// creation reads from the late-sequence log (the real GetLateSequencesSince), in arrival order
+type c08ChanObs struct {
+	ID     uint64   `json:"id"`
+	Valid  uint64   `json:"valid_from"`
+	Cached []uint64 `json:"cached"`
+	Late   []uint64 `json:"late"`
+	Err    string   `json:"late_err,omitempty"`
+}
+
+func (c *c08Chan) contents() c08ChanObs {
+	o := c08ChanObs{ID: c.id}
+	c.sc.lock.RLock()
+	o.Valid = c.sc.validFrom
+	for _, l := range c.sc.logs {
+		o.Cached = append(o.Cached, l.Sequence)
 	}
-	in.star.lock.RUnlock()
-	sort.Slice(cached, func(i, j int) bool { return cached[i] < cached[j] })
-	in.star.lateLogLock.RLock()
-	for i, l := range in.star.lateLogs {
-		if i == 0 {
-			continue // placeholder entry created by initializeLateLogs
-		}
-		late = append(late, l.logEntry.Sequence)
+	c.sc.lock.RUnlock()
+	sort.Slice(o.Cached, func(i, j int) bool { return o.Cached[i] < o.Cached[j] })
+	entries, last, err := c.sc.GetLateSequencesSince(c.reg)
+	if err != nil {
+		o.Err = err.Error()
 	}
-	in.star.lateLogLock.RUnlock()
-	return
+	c.reg = last
+	for _, l := range entries {
+		o.Late = append(o.Late, l.Sequence)
+	}
+	return o
+}
+func (o c08ChanObs) coq() string {
+	return fmt.Sprintf("(%d, %d, %s, %s)", o.ID, o.Valid, cqNList(o.Cached), cqNList(o.Late))
 }
 
 // ---------- Go-side reflections of the theorem statements ----------
@@ -535,26 +607,84 @@ func (m *c08Mon) after(op c08Op, o c08Obs) {
 
 type c08Result struct {
 	obs        []c08Obs
-	star, late []uint64
+	chans      []c08ChanObs // final contents of every channel cache, "*" first
+	lazy       bool         // the trace opens channel caches lazily
 	nontrivial bool
 	lateAny    bool
+	lateBelow  bool // a late arrival reached a cache whose validFrom is above it
+}
+
+func c08Has(l []uint64, x uint64) bool {
+	for _, y := range l {
+		if y == x {
+			return true
+		}
+	}
+	return false
 }
 
 func (e *c08Env) runTrace(rec *vRecorder, stream string, maxp int, initial uint64, ops []c08Op, consistent bool) c08Result {
 	in := e.newInst(maxp, initial)
 	defer in.close()
 	e.traces++
-	in.viaFeed = (stream == "random-consistent" || stream == "adversarial" || stream == "corpus") && e.traces%2 == 0
+	in.viaFeed = (stream == "random-consistent" || stream == "adversarial" || stream == "corpus" || stream == "lazy-channels") && e.traces%2 == 0
 	m := &c08Mon{rec: rec, stream: stream, maxp: maxp, initial: initial, consistent: consistent, prevNext: initial + 1}
 	var res c08Result
+	// for every late document: the channel caches (of its channels, and "*") that were active when it was forwarded
+	type lateDoc struct {
+		seq   uint64
+		chans []uint64
+	}
+	var lateDocs []lateDoc
 	for _, op := range ops {
+		var open []uint64
+		for _, c := range in.chans {
+			open = append(open, c.id)
+		}
 		in.apply(op)
 		o := in.observe()
 		m.hist = append(m.hist, op)
+		if op.Typ == "O" {
+			res.lazy = true
+		}
 		m.after(op, o)
 		res.obs = append(res.obs, o)
+		for _, d := range o.Dl {
+			if d.Kind == c08Doc && d.Late {
+				ld := lateDoc{seq: d.Seq}
+				for _, id := range open {
+					if id == 0 || c08Has(c08ChanIDs(d.Seq), id) {
+						ld.chans = append(ld.chans, id)
+					}
+				}
+				lateDocs = append(lateDocs, ld)
+			}
+		}
 	}
-	res.star, res.late = in.starContents()
+	byID := map[uint64]c08ChanObs{}
+	for _, c := range in.chans {
+		co := c.contents()
+		res.chans = append(res.chans, co)
+		byID[c.id] = co
+		if co.Err != "" {
+			m.fail("seqbuf_late_reaches_open_feeds", "late-feed-rollback", fmt.Sprintf("channel %d: GetLateSequencesSince failed: %s", c.id, co.Err))
+		}
+	}
+	// seqbuf_late_reaches_open_feeds: a late arrival is readable from the late-sequence log of every cache of its
+	// channels that was active (had a registered feed) when it was forwarded, whatever that cache's validFrom
+	for _, ld := range lateDocs {
+		for _, id := range ld.chans {
+			co := byID[id]
+			if !c08Has(co.Late, ld.seq) {
+				m.fail("seqbuf_late_reaches_open_feeds", "late-arrival-not-delivered-to-open-feed",
+					fmt.Sprintf("late arrival %d (channels %v) was not put on the late-sequence log of channel cache %d (validFrom %d, log %v, late log read by its feed %v)",
+						ld.seq, c08ChanIDs(ld.seq), id, co.Valid, co.Cached, co.Late))
+			}
+			if ld.seq < co.Valid {
+				res.lateBelow = true
+			}
+		}
+	}
 	// the "*" channel cache holds exactly the documents forwarded; its late log exactly the late ones
 	var docs, lates []uint64
 	for _, d := range m.all {
@@ -566,23 +696,37 @@ func (e *c08Env) runTrace(rec *vRecorder, stream string, maxp int, initial uint6
 		}
 	}
 	sort.Slice(docs, func(i, j int) bool { return docs[i] < docs[j] })
-	if fmt.Sprint(docs) != fmt.Sprint(res.star) {
-		m.fail("seqbuf_star_cache", "star-cache-differs", fmt.Sprintf("documents forwarded %v, star channel cache holds %v", docs, res.star))
+	star := res.chans[0]
+	if fmt.Sprint(docs) != fmt.Sprint(star.Cached) {
+		m.fail("seqbuf_star_cache", "star-cache-differs", fmt.Sprintf("documents forwarded %v, star channel cache holds %v", docs, star.Cached))
 	}
-	if fmt.Sprint(lates) != fmt.Sprint(res.late) {
-		m.fail("seqbuf_star_cache", "late-log-differs", fmt.Sprintf("late documents forwarded %v, star late log holds %v", lates, res.late))
+	if fmt.Sprint(lates) != fmt.Sprint(star.Late) {
+		m.fail("seqbuf_star_cache", "late-log-differs", fmt.Sprintf("late documents forwarded %v, star late log holds %v", lates, star.Late))
 	}
 	res.nontrivial = m.buffered && (m.skippedAny || m.dupAny)
+	if res.lazy {
+		res.nontrivial = res.nontrivial && res.lateBelow
+	}
 	res.lateAny = m.lateAny
 	return res
 }
 
 func c08CaseTerm(maxp int, initial uint64, ops []c08Op, res c08Result) string {
 	steps := make([]string, len(ops))
+	if res.lazy {
+		for i, op := range ops {
+			steps[i] = "(" + op.xcoq() + ", " + res.obs[i].coq() + ")"
+		}
+		ch := make([]string, len(res.chans))
+		for i, c := range res.chans {
+			ch[i] = c.coq()
+		}
+		return fmt.Sprintf("XCase %d %d %s %s", maxp, initial, cqList(steps), cqList(ch))
+	}
 	for i, op := range ops {
 		steps[i] = "(" + op.coq() + ", " + res.obs[i].coq() + ")"
 	}
-	return fmt.Sprintf("Case %d %d %s %s %s", maxp, initial, cqList(steps), cqNList(res.star), cqNList(res.late))
+	return fmt.Sprintf("Case %d %d %s %s %s", maxp, initial, cqList(steps), cqNList(res.chans[0].Cached), cqNList(res.chans[0].Late))
 }
 
 // emit = also evaluate the trace on the model inside Coq
@@ -594,7 +738,7 @@ func (e *c08Env) doCase(rec *vRecorder, stream, kind string, maxp int, initial u
 	}
 	rec.Size(fmt.Sprintf("len%02d", len(ops)))
 	if emit {
-		desc := map[string]any{"maxp": maxp, "initial": initial, "trace": c08OpsString(ops), "final": res.obs[len(res.obs)-1]}
+		desc := map[string]any{"maxp": maxp, "initial": initial, "trace": c08OpsString(ops), "final": res.obs[len(res.obs)-1], "channel_caches": res.chans}
 		rec.Case(stream, kind, c08CaseTerm(maxp, initial, ops, res), desc, res.nontrivial)
 	} else {
 		rec.Count(stream, kind, fmt.Sprintf("%d|%d|%s", maxp, initial, c08OpsString(ops)), res.nontrivial)
@@ -706,6 +850,10 @@ func TestVerifC08(t *testing.T) {
 		// the two witnesses of coq/theories/C08/C08_Refuted.v
 		{100, 0, []c08Op{A(c08Doc, 2, true), H}},
 		{100, 10, []c08Op{R(5, 15, false), A(c08Doc, 16, true), H}},
+		// a channel cache created lazily above a skipped sequence (validFrom 7), then the late arrival 3 (channels 1, 2)
+		{100, 0, []c08Op{A(c08Doc, 1, false), A(c08Doc, 2, false), A(c08Doc, 4, true), A(c08Doc, 5, false), A(c08Doc, 6, false), H,
+			{Typ: "O", S: 1}, A(c08Doc, 3, false), {Typ: "O", S: 2}, A(c08Doc, 7, false)}},
+		{0, 10, []c08Op{A(c08Doc, 13, false), {Typ: "O", S: 1}, {Typ: "O", S: 2}, A(c08Doc, 11, false), A(c08Doc, 14, false), A(c08Doc, 12, false), A(c08Doc, 15, false)}},
 		// the history of C08_nonvacuous
 		{100, 10, []c08Op{A(c08Doc, 13, true), A(c08Doc, 15, true), H, R(16, 17, false), A(c08Doc, 11, false), A(c08Doc, 12, false), A(c08Doc, 19, false), A(c08Doc, 12, false)}},
 	}
@@ -764,7 +912,7 @@ func TestVerifC08(t *testing.T) {
 	// ---- (c) random, consistent feed: a window partitioned into documents, principals, unused singles and
 	//      unused ranges, delivered out of order with duplicates, ageing, housekeeping and abandon ----
 	pickMaxp := func() int { return []int{0, 1, 2, 3, 100}[rnd.Intn(5)] }
-	nRand := vBudget(500, 6000)
+	nRand := vBudget(350, 6000)
 	lateSeen := 0
 	for i := 0; i < nRand; i++ {
 		initial := []uint64{0, 1, 7, 1000}[rnd.Intn(4)]
@@ -834,11 +982,70 @@ func TestVerifC08(t *testing.T) {
 	}
 	rec.Extra("random_traces_with_late_arrival", lateSeen)
 
+	// ---- (c') lazily created channel caches: consistent random feeds as in (c) with channel caches opened at random
+	//      moments (validFrom = highCacheSequence+1, often above a skipped sequence) and a feed registered on each;
+	//      late arrivals must be readable by those feeds ----
+	nLazy := vBudget(250, 3000)
+	lazyBelow := 0
+	for i := 0; i < nLazy; i++ {
+		initial := []uint64{0, 4, 100}[rnd.Intn(3)]
+		w := 6 + rnd.Intn(7)
+		var evs, tail, ops []c08Op
+		for s := initial + 1; s <= initial+uint64(w); s++ {
+			k := c08Doc
+			if rnd.Chance(12) {
+				k = []c08Kind{c08Princ, c08Unused}[rnd.Intn(2)]
+			}
+			evs = append(evs, A(k, s, false))
+		}
+		reach := 1 + rnd.Intn(3)
+		for j := range evs {
+			k := j + rnd.Intn(reach+1)
+			if k >= len(evs) {
+				k = len(evs) - 1
+			}
+			evs[j], evs[k] = evs[k], evs[j]
+		}
+		opened := 0
+		for j, ev := range evs {
+			ev.Aged = rnd.Chance(40)
+			if j < len(evs)-1 && rnd.Chance(25) {
+				tail = append(tail, ev) // withheld: arrives late
+				continue
+			}
+			ops = append(ops, ev)
+			if rnd.Chance(10) {
+				ops = append(ops, H)
+			}
+			if opened < 2 && rnd.Chance(12) {
+				opened++
+				ops = append(ops, c08Op{Typ: "O", S: uint64(opened)})
+			}
+		}
+		ops = append(ops, H)
+		for opened < 2 && rnd.Chance(80) {
+			opened++
+			ops = append(ops, c08Op{Typ: "O", S: uint64(opened)})
+		}
+		for _, ev := range tail {
+			ops = append(ops, ev)
+			if rnd.Chance(15) {
+				ops = append(ops, ev)
+			}
+		}
+		ops = append(ops, H)
+		res := env.doCase(rec, "lazy-channels", "lazy", []int{0, 1, 2, 100}[rnd.Intn(4)], initial, ops, true)
+		if res.lateBelow {
+			lazyBelow++
+		}
+	}
+	rec.Extra("lazy_traces_with_late_arrival_below_validFrom", lazyBelow)
+
 	// ---- (d) adversarial feed: overlapping ranges, one number both document and unused, ranges straddling
 	//      nextSequence or the initial sequence, sequences at or below the initial one.  Only the unconditional
 	//      monitors apply.  Not generated: two DIFFERENT pending entries with the same start sequence (the pop
 	//      order of container/heap for equal keys is not modelled); such operations are dropped and counted. ----
-	nAdv := vBudget(500, 6000)
+	nAdv := vBudget(400, 6000)
 	tiesAvoided := 0
 	for i := 0; i < nAdv; i++ {
 		initial := []uint64{0, 3, 6}[rnd.Intn(3)]
